@@ -456,6 +456,9 @@ pub struct Finding {
     pub property: &'static str,
     /// explained by the finally deviation (known finding KF-C04-1)?
     pub finally_deviation: bool,
+    /// an internal fault or panic on an execution in which (according to the model) no error
+    /// was in play: outside the domain of C04/C12, inside C05's internal-fault clause
+    pub error_free: bool,
 }
 
 pub struct ProgramEval {
@@ -601,7 +604,8 @@ pub fn evaluate_program(
             }
         }
         if let Some((v, prop, fin)) = verdict {
-            if !pred.error_occurred && !fin {
+            let internal = matches!(v.class.as_str(), "internal-error" | "panic");
+            if !pred.error_occurred && !fin && !internal {
                 // outside the domain of C04/C12: a disagreement without any error in play is a
                 // modelling problem (or a C01-C03 matter), never reported as a violation
                 ev.harness_error = Some(format!(
@@ -615,6 +619,7 @@ pub fn evaluate_program(
                 plan: plan.clone(),
                 property: prop,
                 finally_deviation: fin,
+                error_free: !pred.error_occurred && !fin,
             });
         }
         if pred.fired > 0 || pred.error_occurred {
@@ -834,6 +839,12 @@ fn stmt_expr_variants(s: &Stmt) -> Vec<Stmt> {
                 out.push(Stmt::Storm(*v, 0, *n));
             }
         }
+        Stmt::Calm(v, k, n) => {
+            if *n > 1 {
+                out.push(Stmt::Calm(*v, *k, n / 2));
+                out.push(Stmt::Calm(*v, *k, n - n / 4 - 1));
+            }
+        }
         Stmt::KeyChainCall(v, func, arg, site, form) => {
             out.push(Stmt::Assign(
                 *v,
@@ -850,6 +861,10 @@ fn stmt_expr_variants(s: &Stmt) -> Vec<Stmt> {
                 Expr::Call(Box::new(Call { conduit: Conduit::Plain, func: *func, arg: arg.clone(), drop_arg: false, site: *site })),
             ));
             out.extend(expr_variants(arg).into_iter().map(|x| Stmt::AssignLambdaCall(*v, *func, x, *site)));
+        }
+        Stmt::Throw(ThrowKind::Plain(e)) => {
+            out.push(Stmt::Throw(ThrowKind::Str(1)));
+            out.extend(expr_variants(e).into_iter().map(|x| Stmt::Throw(ThrowKind::Plain(x))));
         }
         Stmt::Throw(ThrowKind::Num(e)) => {
             out.push(Stmt::Throw(ThrowKind::Str(1)));
@@ -1050,7 +1065,7 @@ fn calls_func(b: &Block, func: usize) -> bool {
             Stmt::AssignLambdaCall(_, f2, e, _) | Stmt::KeyChainCall(_, f2, e, _, _) => *f2 == func || in_expr(e, func),
             Stmt::AssignList(es) => es.iter().any(|e| in_expr(e, func)),
             Stmt::AssignStr(ps) => ps.iter().any(|p| matches!(p, StrPart::Int(e) if in_expr(e, func))),
-            Stmt::Throw(ThrowKind::Typed(_, e)) | Stmt::Throw(ThrowKind::Num(e)) | Stmt::Throw(ThrowKind::TypedLayout(_, e, _)) => in_expr(e, func),
+            Stmt::Throw(ThrowKind::Typed(_, e)) | Stmt::Throw(ThrowKind::Num(e)) | Stmt::Throw(ThrowKind::Plain(e)) | Stmt::Throw(ThrowKind::TypedLayout(_, e, _)) => in_expr(e, func),
             Stmt::If(c, t, e) => {
                 (match c {
                     Cond::Eq(x, _) | Cond::Gt(x, _) => in_expr(x, func),
@@ -1158,7 +1173,7 @@ fn find_again(
     if pred.model_gap.is_none()
         && let Some((v, prop, fin)) = verdict
         && v.class == class
-        && (pred.error_occurred || fin)
+        && (pred.error_occurred || fin || matches!(v.class.as_str(), "internal-error" | "panic"))
     {
         return Some((
             printed,
@@ -1167,6 +1182,7 @@ fn find_again(
                 plan: hint.clone(),
                 property: prop,
                 finally_deviation: fin,
+                error_free: !pred.error_occurred && !fin,
             },
         ));
     }
@@ -1201,6 +1217,7 @@ pub fn shrink(
                 plan: finding.plan.clone(),
                 property: finding.property,
                 finally_deviation: finding.finally_deviation,
+                error_free: finding.error_free,
             },
             0,
         );
@@ -1391,6 +1408,14 @@ impl Worker for UnwindWorker {
             };
             if !mine {
                 continue;
+            }
+            if f.error_free && self.property != "C05" {
+                // no error in play: not this property's business (undecided, never a violation)
+                rep.harness_error = Some(format!(
+                    "model/koto disagree on an error-free execution ({}: {})",
+                    f.violation.class, f.violation.detail
+                ));
+                return rep;
             }
             if !seen.insert(f.violation.class.clone()) {
                 continue;
